@@ -557,6 +557,9 @@ def run_immutability(case):
 def recheck(case):
     if case["mode"] == "immut":
         return [("C11/" + s, w) for s, w in run_immutability(case)]
+    if case["mode"] == "large-pinned":
+        from . import c20
+        return [("C11/" + s, w) for s, w in c20.run_large(dict(case, mode="large")) if s.startswith("large/pinned-version")]
     if case["mode"] == "btcow":
         return _btcow_recheck(case)
     if case["mode"] == "sched":
@@ -719,6 +722,29 @@ def _btree_cow_task(task, col):
     col.nontrivial(("btcow", n, rel))
 
 
+def _large_pinned_task(task, col):
+    """A reader pinned on a B-tree zone version with hundreds of delegation points (sizes at
+    which nodes of the default-branching-factor trees fill up) while a writer adds more: what
+    the pinned version holds (names, flags, delegation index, bounds) must not move.  Uses the
+    C20 scenario and reference; only the pinned-version part is this property's business."""
+    from . import c20
+    n, rel = task
+    for add in (["d9999"], ["d0100x", "d9999", "a0"]):
+        for commit in (True, False):
+            case = {"mode": "large", "n": n, "relativize": rel, "commit": commit, "add": add}
+            try:
+                probs = [p for p in c20.run_large(case) if p[0].startswith("large/pinned-version")]
+            except Exception as e:
+                probs = [("large/" + crash_sig(e), repr(e))]
+            col.count("evaluations")
+            col.count("large_pinned_cases")
+            col.outcome("large-pinned:" + (probs[0][0] if probs else "ok"))
+            col.nontrivial(("large-pinned", n, rel, tuple(add), commit))
+            for s_, w_ in probs:
+                col.violation("C11/" + s_, w_ + " [%d delegations, relativize=%s, %s]" % (n, rel, "commit" if commit else "rollback"),
+                              dict(case, mode="large-pinned"))
+
+
 def _btcow_recheck(case):
     col = __import__("mc.core", fromlist=["Collector"]).Collector()
     _btree_cow_task((case["n"], case["relativize"]), col)
@@ -749,6 +775,9 @@ def run(ctx):
     sched_part(ctx)
     ctx.pmap(_btree_cow_task, [(n, rel) for n in range(5, ctx.pick(22, 40)) for rel in (True, False)])
     ctx.extra["btree_cow_names"] = [5, ctx.pick(21, 39)]
+    sizes = ctx.pick([253, 254, 380, 381], [127, 128, 252, 253, 254, 255, 380, 381, 382, 507, 508])
+    ctx.extra["large_pinned_delegation_counts"] = sizes
+    ctx.pmap(_large_pinned_task, [(n, rel) for n in sizes for rel in (True, False)])
     # the depth cap is the stated bound, not an accident
     ctx.caps[:] = []
     ctx.extra["depth_bound_reached"] = True
